@@ -54,6 +54,17 @@ CFG_H = cfg(3, 11, 7, 5)     # another order
 CFG_NAMES = {'G': CFG_G, 'H': CFG_H}
 
 
+def cfg_by_name(name):
+    if name == 'D':
+        return default_cfg()
+    if name == 'Rdo':   # the default configuration with only the readout length changed
+        c = default_cfg()
+        c[K.READOUT] = 7.0
+        return c
+    return CFG_NAMES[name]
+
+
+
 def default_cfg():
     """The configuration the repository itself puts in force (read from its registry, never hard-coded)."""
     reg = _rd.GlobalDurationRegistryManager.read_config()
@@ -64,10 +75,6 @@ def override(c):
     return _rd.temporary_override_get_registry_at(c)
 
 
-def cfg_by_name(name):
-    if name == 'D':
-        return default_cfg()
-    return CFG_NAMES[name]
 
 
 def close_figures():
